@@ -279,6 +279,7 @@ func TestC12Shutdown(t *testing.T) {
 				}
 			}
 		}
+		h.closing = true
 		h.checkLifecycle(h.messages()) // an exchange closes only through the broker's acknowledgement
 		// every method returns ErrClosed now
 		after := map[string]func() error{
